@@ -7,6 +7,7 @@ and after every call looks at the table through a FRESH sqlite3 connection (comm
 handle's own connection (pending state).  Oracle: mc/refs/c17ref.py.
 """
 import collections
+import gc
 import itertools
 import logging
 import os
@@ -22,7 +23,8 @@ ID = 'C17'
 LEVEL = 'fault_enumeration'
 ENGINE = 'E3 fault-position enumeration over sqlite3 file databases with a committed-state reference model'
 RULE = ('every (prior table contents, source table, fault position in {none, header, each data row, exhaustion}, '
-        'handle kind in {file name, connection, cursor, cursor factory}, connection flavour, commit flag, '
+        'handle kind in {file name, connection, cursor, cursor factory over one shared connection, cursor factory '
+        'opening a new connection per call}, connection flavour, commit flag, '
         'todb/appenddb, raw failing source or failing source behind a petl view) is executed on a fresh sqlite3 '
         'file; 1, 2 and (thorough) 3 consecutive loads through one handle with a fault position chosen '
         'independently per load, with and without a caller rollback in between.  Exception-type space: every '
@@ -45,6 +47,8 @@ RULE = ('every (prior table contents, source table, fault position in {none, hea
         'committing at the wrong moment would be visible: the source fails after the load has already changed '
         'the pending table (rows deleted by todb or >=1 row inserted), or commit=False with a changed pending '
         'table, or a completed committed load whose result differs from the prior contents.  '
+        'todb through a per-call-connection factory is refused by sqlite (truncate and insert land on two '
+        'connections): accepted when the committed table is untouched, counted under info:...  '
         'Excluded: create=/drop= (need SQLAlchemy, outside the statement); connections in driver autocommit '
         'mode (isolation_level=None / autocommit=True: every statement is durable at once, petl cannot give '
         'atomicity and documents nothing); typed columns, bool, NaN and >64-bit ints (the engine converts them; '
@@ -66,7 +70,11 @@ NAMING = {
     'hostile': ('my "t" tbl', ('a b', 'x"y')),
 }
 HANDLES = [('filename', 'legacy'), ('connection', 'legacy'), ('cursor', 'legacy'), ('mkcurs', 'legacy'),
-           ('connection', 'pep249'), ('cursor', 'pep249'), ('mkcurs', 'pep249')]
+           ('connection', 'pep249'), ('cursor', 'pep249'), ('mkcurs', 'pep249'),
+           # cursor factory that opens a NEW connection for every call (pool / per-call connection): the docs only
+           # ask that each call returns a new cursor; there is no caller-owned connection to look through
+           ('mkcurs-newconn', 'legacy'), ('mkcurs-newconn', 'pep249')]
+NO_CALLER_CONNECTION = ('filename', 'mkcurs-newconn')
 OPS = ('todb', 'appenddb')
 
 _R = None          # representatives
@@ -105,6 +113,7 @@ def bounds(tier, seed):
             'long_source_fault_positions': [len(f) for _, f in _long_plan(tier)],
             'read_events': ['%s/%s/%s' % e for e in READ_EVENTS],
             'roundtrip_cells': len(_CELLS), 'roundtrip_max_rows': 2,
+            'quick_largest_tables_with_nonempty_prior_only': tier != 'thorough',
             'consecutive_loads': 3 if tier == 'thorough' else 2,
             'two_load_max_rows': 2 if tier == 'thorough' else 1, 'three_load_max_rows': 1,
             'handles': ['%s/%s' % h for h in HANDLES], 'priors': [len(p) for p in _PRIORS]}
@@ -117,7 +126,8 @@ def bounds(tier, seed):
 def items(tier, seed):
     """Simplest first (single loads before sequences); no cost() so that the runner keeps this order and the
     first - hence reported - case of a violation group is a small one."""
-    hs = spaces.rotate(range(len(HANDLES)), seed)
+    hs = [h for h in spaces.rotate(range(len(HANDLES)), seed)
+          if tier == 'thorough' or HANDLES[h] != ('mkcurs-newconn', 'pep249')]
     out = []
     for h in hs:
         for op in OPS:
@@ -144,7 +154,7 @@ def items(tier, seed):
             out.append(('hostile', h, op))
     seqs, seq3 = [], []
     for h in hs:
-        betweens = ('none', 'reads') if HANDLES[h][0] == 'filename' else ('none', 'rollback', 'reads')
+        betweens = ('none', 'reads') if HANDLES[h][0] in NO_CALLER_CONNECTION else ('none', 'rollback', 'reads')
         for between in betweens:
             if between == 'reads' and tier != 'thorough' and HANDLES[h][1] != 'legacy':
                 continue
@@ -154,7 +164,17 @@ def items(tier, seed):
             if tier == 'thorough' and between != 'reads':
                 for ops in itertools.product(OPS, repeat=3):
                     seq3.append(('seq3', h, between, ops))
-    return out + seqs + seq3
+    out = out + seqs + seq3
+    if tier == 'thorough':
+        out = [it for it in out if not (HANDLES[it[1]][0] == 'mkcurs-newconn' and
+                                        (it[0] == 'seq3' or (HANDLES[it[1]][1] == 'pep249' and
+                                                             it[0] in ('roundtrip', 'long', 'hostile', 'exc'))))]
+    if tier != 'thorough':
+        # quick: the per-call-connection factory is crossed with the load / round-trip / sequence / read spaces;
+        # its cross with exception types, long sources, hostile identifiers and view-wrapped sources is thorough-only
+        out = [it for it in out if not (HANDLES[it[1]][0] == 'mkcurs-newconn'
+                                        and (it[0] in ('exc', 'long', 'hostile') or (it[0] == 'fault' and it[4] == 'view')))]
+    return out
 
 
 BOUNDARIES = (10, 16, 32, 50, 64, 100, 128, 200, 250, 256, 500, 512, 1000, 1024, 2000, 2048)
@@ -204,7 +224,7 @@ def cases_of(item, tier):
         rows16 = list(itertools.product(_CELLS, repeat=2))
         for n in range(0, 3):
             for tbl in itertools.product(rows16, repeat=n):
-                for prior in _PRIORS:
+                for prior in (_PRIORS if (tier == 'thorough' or n < 2) else _PRIORS[1:]):
                     for header in (('a', 'b'), ('b', 'a')):
                         c = dict(base)
                         c['prior'] = prior
@@ -217,7 +237,7 @@ def cases_of(item, tier):
         for n in range(0, nmax + 1):
             for tbl in itertools.product(_R3, repeat=n):
                 for fault in _fault_positions(n, False):
-                    for prior in _PRIORS:
+                    for prior in (_PRIORS if (tier == 'thorough' or n < 3) else _PRIORS[1:]):
                         c = dict(base)
                         c['prior'] = prior
                         c['steps'] = [{'op': op, 'commit': commit, 'header': ('a', 'b'), 'rows': list(tbl),
@@ -258,7 +278,7 @@ def cases_of(item, tier):
             rows = (_SEQROWS[0] + _SEQROWS[1])[:n]
             for fault in _fault_positions(n, True):
                 for evs in evsets:
-                    if handle == 'filename' and any(e[2] == 'connection' for e in evs):
+                    if handle in NO_CALLER_CONNECTION and any(e[2] == 'connection' for e in evs):
                         continue        # no caller connection; 'handle' reads go through the file name
                     c = dict(base)
                     c['prior'] = _PRIORS[1]
@@ -309,7 +329,7 @@ def cases_of(item, tier):
                                       'rows': rows, 'fault': f, 'src': 'raw'})
                         if between == 'reads':
                             steps[-1]['reads'] = [e for e in SEQ_READS
-                                                  if not (handle == 'filename' and e[2] == 'connection')]
+                                                  if not (handle in NO_CALLER_CONNECTION and e[2] == 'connection')]
                     c['steps'] = steps
                     yield c
     else:
@@ -495,9 +515,16 @@ def run_case(case, counts=None):
         c0.close()
 
         kind = case['handle']
-        owns = kind == 'filename'
-        if owns:
+        owns = kind in NO_CALLER_CONNECTION      # no caller-owned connection: pending work dies with the call
+        if kind == 'filename':
             handle = path
+        elif kind == 'mkcurs-newconn':
+            flavor = case['flavor']
+            # timeout=0: a load whose statements land on two connections fails at once instead of waiting 5 s
+            if flavor == 'pep249':
+                handle = lambda: sqlite3.connect(path, timeout=0, autocommit=False).cursor()
+            else:
+                handle = lambda: sqlite3.connect(path, timeout=0).cursor()
         else:
             conn = _connect(path, case['flavor'])
             if kind == 'connection':
@@ -530,7 +557,13 @@ def run_case(case, counts=None):
                 else:
                     fn(_source(step, cols), handle, tname, commit=step['commit'])
             except Exception as e:
-                raised = e
+                # keep type and text only: the traceback would keep petl's cursors / connections alive
+                raised = (type(e).__name__, str(e)[:200])
+            if kind == 'mkcurs-newconn':
+                # the per-call connections are garbage now; a sqlite3.Connection sits in a reference cycle with
+                # its statement cache, so it is only closed (and its pending work rolled back, its lock released)
+                # by the cyclic collector - run it, as "the caller has dropped the connection"
+                gc.collect()
             committed_after = _fresh_rows(path, tname, cols)
             counts['last'] = (raised is not None, len(committed_after),
                               ref.bag(committed_after) == ref.bag(committed_before))
@@ -544,10 +577,18 @@ def run_case(case, counts=None):
             if changed:
                 counts['nontrivial_step'] = True
 
+            if (step['fault'] is None and raised is not None and kind == 'mkcurs-newconn'
+                    and step['op'] == 'todb' and ref.bag(committed_after) == ref.bag(committed_before)):
+                # todb truncates through one cursor of the factory and inserts through the next one; with one
+                # connection per call these are two transactions and the engine refuses (sqlite: 'database is
+                # locked').  The documentation shows only factories over one shared connection; accepted as long
+                # as the committed table is untouched (all-or-nothing still demanded).
+                bump('info_todb_newconn_refused')
+                break
             if step['fault'] is None and raised is not None:
                 problems.append((_sig_group(step, case, 'raised although the source did not fail'), si,
-                                 'returns normally', '%s: %s' % (type(raised).__name__, str(raised)[:200]),
-                                 '%s raised %s on a well-formed source' % (step['op'], type(raised).__name__)))
+                                 'returns normally', '%s: %s' % raised,
+                                 '%s raised %s on a well-formed source' % (step['op'], raised[0])))
                 break
             bump('evals')
             if ref.bag(committed_after) != ref.bag(exp_committed):
@@ -584,6 +625,8 @@ def run_case(case, counts=None):
                 bump('transitions')
                 try:
                     back = list(etl.fromdb(handle, 'SELECT * FROM %s' % _q(tname)))
+                    if kind == 'mkcurs-newconn':
+                        gc.collect()
                     got_hdr = tuple(back[0]) if back else None
                     got_rows = [tuple(r) for r in back[1:]]
                     obs = None
@@ -608,6 +651,8 @@ def run_case(case, counts=None):
                     err = None
                 except Exception as e:
                     got, err = None, '%s: %s' % (type(e).__name__, str(e)[:200])
+                if kind == 'mkcurs-newconn':
+                    gc.collect()
                 c_after = _fresh_rows(path, tname, cols)
                 v_after = c_after if owns else conn.execute(_select(tname, cols)).fetchall()
                 counts['reads'] = counts.get('reads', 0) + 1
@@ -676,6 +721,9 @@ def run_item(item, acc):
             acc.counters['read events'] += counts['reads']
             if counts.get('nontrivial_read'):
                 acc.counters['read events:cases with work pending on the connection while petl read'] += 1
+        if counts.get('info_todb_newconn_refused'):
+            acc.counters['info:todb through a cursor factory with one connection per call was refused by the '
+                         'engine, table untouched (accepted)'] += 1
         if any('nrows' in st for st in case['steps']):
             acc.counters['long-source loads'] += 1
         if counts.get('info_pending_of_failed_load_committed_later'):
@@ -710,7 +758,7 @@ def vacuity(cov, tier):
     bad = []
     c = cov['per_case_counters']
     for op in OPS:
-        for h in ('filename', 'connection', 'cursor', 'mkcurs'):
+        for h in ('filename', 'connection', 'cursor', 'mkcurs', 'mkcurs-newconn'):
             for k in ('fault', 'complete'):
                 if not c.get('%s:%s:%s' % (op, h, k)):
                     bad.append('no %s load via %s handle with outcome class %s' % (op, h, k))
